@@ -190,3 +190,33 @@ Theorem C08_meek_prf_snapshots_for_every_accepted_file : forall A S (ZL : zlike 
      raw ZL (as_votes sn) + match as_nt sn with Some x => raw ZL x | None => 0 end = cf_nballots cfg * S).
 Proof. exact accepted_meek_prf. Qed.
 Print Assumptions C08_meek_prf_snapshots_for_every_accepted_file.
+
+(* WHOLE RUN, meek and warren, every arithmetic, profile and fuel: iterations stop only when converged, and candidates are
+   excluded only after such an end of iteration.  Take any action [a] of the record of a count that did not crash, with
+   [older] the actions logged before it (the list is newest first).
+   - If [a] is the 'iterate' action "Iterate (omega)", the total surplus its snapshot shows is not above omega
+     ([lev] is the arithmetic's own <=; omega = 1/10^omega10, [omega_or0]).
+   - If [a] is "Iterate (stable)", the action logged just before it is the log line "Stable state detected (...)": a surplus
+     that stopped decreasing is logged.
+   - If [a] is an exclusion, it is either the closing "Defeat remaining" or, going back through the record without crossing
+     the round's 'round' action, one meets the 'iterate' action that closed the round's iteration ([last_iter]), and that
+     action says omega, stable or batch (batch: a batch of sure losers ends the iteration early).  *)
+From Droop Require Import Proofs.MeekExit.
+Open Scope string_scope.
+Theorem C08_iterations_stop_only_when_converged_whole_run : forall A cfg, cf_method cfg = MMeek ->
+  forall pr fuel s k,
+  exec (@crashed A) fuel (count_cmd A cfg RMeek) (init_state A cfg pr) = Some (s, k) -> k <> Abort ->
+  forall pre a older, actions s = (pre ++ a :: older)%list ->
+  (a_tag a = TIterate -> a_msg a = "Iterate (omega)" ->
+     exists sn sp, a_snap a = Some sn /\ as_surplus sn = Some sp /\ lev A sp (omega_or0 A cfg) = true) /\
+  (a_tag a = TIterate -> a_msg a = "Iterate (stable)" ->
+     exists b t, older = b :: t /\ a_tag b = TLog /\ prefix "Stable state detected (" (a_msg b) = true) /\
+  (a_tag a = TDefeat -> is_remaining (a_msg a) = true \/ exists m, last_iter A older = Some m /\ converged_msg m = true).
+Proof. exact count_meek_exits_spelled. Qed.
+Print Assumptions C08_iterations_stop_only_when_converged_whole_run.
+
+Example C08_converged_messages :
+  converged_msg "Iterate (omega)" = true /\ converged_msg "Iterate (stable)" = true /\ converged_msg "Iterate (batch)" = true /\
+  converged_msg "Iterate (elected)" = false /\ converged_msg "Iterate (none)" = false /\
+  is_remaining "Defeat remaining: Cyd" = true /\ is_remaining "Defeat certain loser: Cyd" = false.
+Proof. repeat split. Qed.
